@@ -222,6 +222,10 @@ def sql_level(rep, scratch, rng, tier, dss, counts):
                                                                   "SQLQ e2 d1 direct %s 1" % qfew, "ARGS 1 S 1 49", "SQLQ e3 d1 prepared %s 1" % qbad, "ARGS 0", "SQLQ e4 d1 tx %s 1" % qbad, "ARGS 0",
                                                                   "SQLQ s2 d1 direct %s 1" % q, "ARGS 0", "SQLCLOSE d1", "SQLPROBE p1 fa",
                                                                   "SQLOPEN d2 fa %s %d" % (lru, pool), "SQLQ s3 d2 direct %s 1" % q, "ARGS 0", "SQLCLOSE d2", "SQLPROBE p2 fa"]))
+    qarg = core.enc_str(b'^ ^ a = $1 ; a')
+    scen.append(("concurrent-queries-with-different-arguments", ["SQLOPEN d1 fa - 8", "SQLCONCA ca d1 16 %d %s 4 1 S 1 49 1 S 1 50 1 S 2 122 122 1 I 1" % (30 if tier == "quick" else 300, qarg),
+                                                                "SQLOPEN d2 fa - 2", "SQLCONCA cb d2 8 %d %s 3 1 S 1 49 1 S 1 50 1 S 1 51" % (30 if tier == "quick" else 300, qarg),
+                                                                "SQLCLOSE d1", "SQLCLOSE d2", "SQLPROBE p1 fa"]))
     scen.append(("overlapping-transactions", ["SQLOPEN d1 fa - 4", "SQLTX2 s1 d1 %s" % q, "SQLTX2 s2 d1 %s" % q, "SQLQ s3 d1 direct %s 1" % q, "ARGS 0", "SQLCLOSE d1", "SQLPROBE p1 fa"]))
     for n, iters in ((8, 150), (16, 60)):
         scen.append(("open-query-close-churn-%d" % n, ["SQLCHURN ch fa preload=true %d %d %s" % (n, iters if tier == "quick" else iters * 5, q), "SQLPROBE p1 fa"]))
@@ -248,6 +252,9 @@ def sql_level(rep, scratch, rng, tier, dss, counts):
                 if f[2] != want:
                     why = "%s answered %s (expected %s)" % (f[1], f[2][:80], want[-12:])
                     break
+            if f[0] == "CONCA" and not f[2].startswith("OK"):
+                why = "queries with different arguments run at the same time on one data source: %s" % f[2][:200]
+                break
             if f[0] == "CHURN":
                 want = "ROWS 1 5 99 111 117 110 116 TYPES BIGINT:int64 N 1 | I %d" % counts["fa"]
                 g = l.split(" ", 3)
@@ -291,7 +298,7 @@ def run(rep, scratch, tier, seed, replay=None):
             rep.violation("obligation", "the generated lock obligation of C17 no longer checks (coq/obligations/ObC17.v); histories and concurrent first use found no failing schedule",
                           {"broken": "C17_locks / C17_single_section", "unknown_to_policy": ob.get("unknown_to_policy", ""), "coqc_output": ob["output"][-2500:]}, no_input=True)
     rep.coverage.update({
-        "evaluations": nh + 14, "distinct_nontrivial": len(set(tuple(o[0] for o in h[0]) for h in hist)),
+        "evaluations": nh + 15, "distinct_nontrivial": len(set(tuple(o[0] for o in h[0]) for h in hist)),
         "rule": "well-formed histories of 3..14 driver.Conn-level operations (Open / query / Close) over 2 index files x option strings %s (+ missing file, + invalid cache size), each in a fresh process, compared with DriverSM.d_run (result class per operation; a query must return the count of its own file); database/sql scenarios: reopen after the last close, the same file under two option strings, pool sizes 1,2,4, first use by 2 and 16 goroutines; after the last close a non-blocking flock must succeed. Non-trivial = distinct operation-kind sequences." % OPTS,
         "failures": nbad, "samples": [" ; ".join(" ".join(o) for o in hist[5][0])],
     })
